@@ -1,3 +1,237 @@
-(** C18 — property theorems (statements only; proofs by [exact]). *)
-From Coq Require Import ZArith.
-From RlibV Require Import C18.Model C18.Corr.
+(** C18 — property theorems (statements only; proofs by [exact]).
+
+    Vocabulary ([C18/Spec.v]): [val x] real value of a [spec_float]; [rnd80]/[rnd64] round to nearest even to
+    the extended format (64-bit significand, emax 16384) / to binary64; [valid64]/[valid80] "is a datum of the
+    format"; [finite] = zero or finite non-zero.  [widen] is [f80::from(f64)], [narrow] is [f64::from(f80)],
+    [add80 … abs80] are the operations of the model ([C18/Model.v]), which the correspondence batches compare
+    with the x87 results bit for bit on every run. *)
+From Coq Require Import ZArith Reals Bool Floats.SpecFloat.
+From Flocq Require Import Core.Zaux Core.Raux Core.Defs Core.Generic_fmt Core.FLT Core.Round_NE
+  IEEE754.BinarySingleNaN.
+From RlibV Require Import C18.Model C18.Corr C18.Spec C18.Transport C18.ProofsConv C18.ProofsArith
+  C18.ProofsCmp C18.ProofsCmpR C18.ProofsSpecCheck.
+Open Scope Z_scope.
+
+(** ** transport: the executable operations are Flocq's, at every precision (in particular (64, 16384)) *)
+Theorem c18_transport_add : forall (prec emax : Z) (Hp : FLX.Prec_gt_0 prec) (He : Prec_lt_emax prec emax)
+  (x y : binary_float prec emax),
+  SFadd prec emax (B2SF x) (B2SF y) = B2SF (@Bplus prec emax Hp He mode_NE x y).
+Proof. exact SFadd_Bplus. Qed.
+Theorem c18_transport_sub : forall (prec emax : Z) (Hp : FLX.Prec_gt_0 prec) (He : Prec_lt_emax prec emax)
+  (x y : binary_float prec emax),
+  SFsub prec emax (B2SF x) (B2SF y) = B2SF (@Bminus prec emax Hp He mode_NE x y).
+Proof. exact SFsub_Bminus. Qed.
+Theorem c18_transport_mul : forall (prec emax : Z) (Hp : FLX.Prec_gt_0 prec) (He : Prec_lt_emax prec emax)
+  (x y : binary_float prec emax),
+  SFmul prec emax (B2SF x) (B2SF y) = B2SF (@Bmult prec emax Hp He mode_NE x y).
+Proof. exact SFmul_Bmult. Qed.
+Theorem c18_transport_div : forall (prec emax : Z) (Hp : FLX.Prec_gt_0 prec) (He : Prec_lt_emax prec emax)
+  (x y : binary_float prec emax),
+  SFdiv prec emax (B2SF x) (B2SF y) = B2SF (@Bdiv prec emax Hp He mode_NE x y).
+Proof. exact SFdiv_Bdiv. Qed.
+
+(** ** arithmetic on images of binary64 values: exact real result, rounded once to 64 bits; never overflows *)
+Theorem c18_add_correct : forall a b : spec_float, valid64 a -> valid64 b -> finite a -> finite b ->
+  let r := add80 (widen a) (widen b) in
+  val r = rnd80 (val a + val b) /\ finite r /\ valid80 r
+  /\ sign_SF r = sum_sign (val a + val b) (sign_SF a) (sign_SF b).
+Proof. exact add_f64. Qed.
+Theorem c18_sub_correct : forall a b : spec_float, valid64 a -> valid64 b -> finite a -> finite b ->
+  let r := sub80 (widen a) (widen b) in
+  val r = rnd80 (val a - val b) /\ finite r /\ valid80 r
+  /\ sign_SF r = sum_sign (val a - val b) (sign_SF a) (negb (sign_SF b)).
+Proof. exact sub_f64. Qed.
+Theorem c18_mul_correct : forall a b : spec_float, valid64 a -> valid64 b -> finite a -> finite b ->
+  let r := mul80 (widen a) (widen b) in
+  val r = rnd80 (val a * val b) /\ finite r /\ valid80 r /\ sign_SF r = xorb (sign_SF a) (sign_SF b).
+Proof. exact mul_f64. Qed.
+Theorem c18_div_correct : forall a b : spec_float, valid64 a -> valid64 b -> finite a -> finite b ->
+  val b <> 0%R ->
+  let r := div80 (widen a) (widen b) in
+  val r = rnd80 (val a / val b) /\ finite r /\ valid80 r /\ sign_SF r = xorb (sign_SF a) (sign_SF b).
+Proof. exact div_f64. Qed.
+
+(** ** the same for arbitrary extended-format operands (operation chains), while the result does not overflow *)
+Theorem c18_add_correct_f80 : forall x y : spec_float, valid80 x -> valid80 y -> finite x -> finite y ->
+  (Rabs (rnd80 (val x + val y)) < bpow radix2 e80)%R ->
+  val (add80 x y) = rnd80 (val x + val y) /\ finite (add80 x y) /\ valid80 (add80 x y)
+  /\ sign_SF (add80 x y) = sum_sign (val x + val y) (sign_SF x) (sign_SF y).
+Proof. exact add80_correct. Qed.
+Theorem c18_sub_correct_f80 : forall x y : spec_float, valid80 x -> valid80 y -> finite x -> finite y ->
+  (Rabs (rnd80 (val x - val y)) < bpow radix2 e80)%R ->
+  val (sub80 x y) = rnd80 (val x - val y) /\ finite (sub80 x y) /\ valid80 (sub80 x y)
+  /\ sign_SF (sub80 x y) = sum_sign (val x - val y) (sign_SF x) (negb (sign_SF y)).
+Proof. exact sub80_correct. Qed.
+Theorem c18_mul_correct_f80 : forall x y : spec_float, valid80 x -> valid80 y -> finite x -> finite y ->
+  (Rabs (rnd80 (val x * val y)) < bpow radix2 e80)%R ->
+  val (mul80 x y) = rnd80 (val x * val y) /\ finite (mul80 x y) /\ valid80 (mul80 x y)
+  /\ sign_SF (mul80 x y) = xorb (sign_SF x) (sign_SF y).
+Proof. exact mul80_correct. Qed.
+Theorem c18_div_correct_f80 : forall x y : spec_float, valid80 x -> valid80 y -> finite x -> finite y ->
+  val y <> 0%R ->
+  (Rabs (rnd80 (val x / val y)) < bpow radix2 e80)%R ->
+  val (div80 x y) = rnd80 (val x / val y) /\ finite (div80 x y) /\ valid80 (div80 x y)
+  /\ sign_SF (div80 x y) = xorb (sign_SF x) (sign_SF y).
+Proof. exact div80_correct. Qed.
+
+(** ** special values: NaN, infinities, signed zeros, division by zero *)
+Theorem c18_add_special :
+  (forall y, add80 S754_nan y = S754_nan) /\ (forall x, add80 x S754_nan = S754_nan)
+  /\ (forall s, add80 (S754_infinity s) (S754_infinity s) = S754_infinity s)
+  /\ (forall s, add80 (S754_infinity s) (S754_infinity (negb s)) = S754_nan)
+  /\ (forall s y, finite y -> add80 (S754_infinity s) y = S754_infinity s /\ add80 y (S754_infinity s) = S754_infinity s)
+  /\ (forall s1 s2, add80 (S754_zero s1) (S754_zero s2) = S754_zero (andb s1 s2))
+  /\ (forall s y, is_finite_strict_SF y = true -> add80 (S754_zero s) y = y /\ add80 y (S754_zero s) = y).
+Proof. exact add80_special. Qed.
+Theorem c18_sub_special :
+  (forall y, sub80 S754_nan y = S754_nan) /\ (forall x, sub80 x S754_nan = S754_nan)
+  /\ (forall s, sub80 (S754_infinity s) (S754_infinity (negb s)) = S754_infinity s)
+  /\ (forall s, sub80 (S754_infinity s) (S754_infinity s) = S754_nan)
+  /\ (forall s y, finite y -> sub80 (S754_infinity s) y = S754_infinity s /\ sub80 y (S754_infinity s) = S754_infinity (negb s))
+  /\ (forall s1 s2, sub80 (S754_zero s1) (S754_zero s2) = S754_zero (andb s1 (negb s2)))
+  /\ (forall s y, is_finite_strict_SF y = true -> sub80 (S754_zero s) y = SFopp y /\ sub80 y (S754_zero s) = y).
+Proof. exact sub80_special. Qed.
+Theorem c18_mul_special :
+  (forall y, mul80 S754_nan y = S754_nan) /\ (forall x, mul80 x S754_nan = S754_nan)
+  /\ (forall s1 s2, mul80 (S754_infinity s1) (S754_infinity s2) = S754_infinity (xorb s1 s2))
+  /\ (forall s1 s2, mul80 (S754_infinity s1) (S754_zero s2) = S754_nan /\ mul80 (S754_zero s2) (S754_infinity s1) = S754_nan)
+  /\ (forall s y, is_finite_strict_SF y = true ->
+        mul80 (S754_infinity s) y = S754_infinity (xorb s (sign_SF y)) /\ mul80 y (S754_infinity s) = S754_infinity (xorb (sign_SF y) s))
+  /\ (forall s y, finite y ->
+        mul80 (S754_zero s) y = S754_zero (xorb s (sign_SF y)) /\ mul80 y (S754_zero s) = S754_zero (xorb (sign_SF y) s)).
+Proof. exact mul80_special. Qed.
+Theorem c18_div_special :
+  (forall y, div80 S754_nan y = S754_nan) /\ (forall x, div80 x S754_nan = S754_nan)
+  /\ (forall s1 s2, div80 (S754_infinity s1) (S754_infinity s2) = S754_nan)
+  /\ (forall s1 s2, div80 (S754_zero s1) (S754_zero s2) = S754_nan)
+  /\ (forall s y, finite y -> div80 (S754_infinity s) y = S754_infinity (xorb s (sign_SF y))
+                             /\ div80 y (S754_infinity s) = S754_zero (xorb (sign_SF y) s))
+  /\ (forall s y, is_finite_strict_SF y = true ->
+        div80 y (S754_zero s) = S754_infinity (xorb (sign_SF y) s)
+        /\ div80 (S754_zero s) y = S754_zero (xorb s (sign_SF y))).
+Proof. exact div80_special. Qed.
+
+(** negation is exact, an involution, flips the sign (also of zeros and infinities), keeps NaN *)
+Theorem c18_neg : forall x : spec_float,
+  val (neg80 x) = (- val x)%R /\ neg80 (neg80 x) = x
+  /\ (x <> S754_nan -> sign_SF (neg80 x) = negb (sign_SF x))
+  /\ is_finite_SF (neg80 x) = is_finite_SF x /\ is_nan_SF (neg80 x) = is_nan_SF x
+  /\ (valid80 x -> valid80 (neg80 x)).
+Proof. exact neg80_spec. Qed.
+
+(** ** conversions *)
+(** every binary64 datum is an extended-format datum with the same real value, class and sign *)
+Theorem c18_widen_exact : forall a : spec_float, valid64 a ->
+  valid80 (widen a) /\ val (widen a) = val a
+  /\ is_finite_SF (widen a) = is_finite_SF a /\ is_nan_SF (widen a) = is_nan_SF a
+  /\ sign_SF (widen a) = sign_SF a
+  /\ (forall s, widen a = S754_zero s <-> a = S754_zero s)
+  /\ (forall s, widen a = S754_infinity s <-> a = S754_infinity s)
+  /\ (widen a = S754_nan <-> a = S754_nan).
+Proof. exact (fun a Ha => conj (widen_valid a Ha) (conj (widen_val a Ha) (widen_class a))). Qed.
+Theorem c18_widen_injective : forall a b : spec_float, valid64 a -> valid64 b -> widen a = widen b -> a = b.
+Proof. exact widen_inj. Qed.
+(** f64 -> f80 -> f64 is the identity (NaN maps to NaN: payloads are not modelled) *)
+Theorem c18_roundtrip_f64 : forall a : spec_float, valid64 a -> narrow (widen a) = a.
+Proof. exact roundtrip. Qed.
+(** f80 -> f64 rounds to nearest even, overflows to the infinity of the same sign, keeps zeros/infinities/NaN *)
+Theorem c18_narrow_correct : forall (s : bool) (m : positive) (e : Z),
+  let x := S754_finite s m e in
+  ((Rabs (rnd64 (val x)) < bpow radix2 e64)%R ->
+     val (narrow x) = rnd64 (val x) /\ is_finite_SF (narrow x) = true /\ sign_SF (narrow x) = s
+     /\ valid64 (narrow x))
+  /\ ((bpow radix2 e64 <= Rabs (rnd64 (val x)))%R -> narrow x = S754_infinity s).
+Proof. exact (fun s m e => conj (narrow_correct s m e) (narrow_overflow s m e)). Qed.
+Theorem c18_narrow_special :
+  (forall s, narrow (S754_zero s) = S754_zero s) /\ (forall s, narrow (S754_infinity s) = S754_infinity s)
+  /\ narrow S754_nan = S754_nan.
+Proof. exact narrow_special. Qed.
+
+(** ** relations, as read from the x87 flags, against the IEEE comparison *)
+Theorem c18_lt_is_ieee : forall x y : spec_float,
+  (lt80 x y = true <-> SFcompare x y = Some Lt) /\ (gt80 x y = true <-> SFcompare x y = Some Gt).
+Proof. exact (fun x y => conj (lt_is_ieee x y) (gt_is_ieee x y)). Qed.
+Theorem c18_eq_is_ieee : forall x y : spec_float, eq80 x y = true <-> SFcompare x y = Some Eq.
+Proof. exact eq_is_ieee. Qed.
+Theorem c18_le_ge_partial_cmp : forall x y : spec_float,
+  (le80 x y = true <-> SFcompare x y = Some Lt \/ SFcompare x y = Some Eq)
+  /\ (ge80 x y = true <-> SFcompare x y = Some Gt \/ SFcompare x y = Some Eq)
+  /\ partial_cmp80 x y = SFcompare x y
+  /\ (partial_cmp80 x y = None <-> x = S754_nan \/ y = S754_nan).
+Proof. exact le_ge_partial_cmp. Qed.
+Theorem c18_eq_consistent : forall x y : spec_float, eq80 x y = true <-> partial_cmp80 x y = Some Eq.
+Proof. exact eq_consistent. Qed.
+(** the IEEE comparison is the order of the real values (so -0 = +0); infinities are the extremes *)
+Theorem c18_compare_real : forall a b : spec_float, valid64 a -> valid64 b -> finite a -> finite b ->
+  partial_cmp80 (widen a) (widen b) = Some (Rcompare (val a) (val b)).
+Proof. exact compare_f64. Qed.
+Theorem c18_compare_real_f80 : forall x y : spec_float, valid80 x -> valid80 y -> finite x -> finite y ->
+  SFcompare x y = Some (Rcompare (val x) (val y)).
+Proof. exact compare_real. Qed.
+Theorem c18_compare_inf :
+  (forall s y, finite y -> SFcompare (S754_infinity s) y = Some (if s then Lt else Gt)
+                        /\ SFcompare y (S754_infinity s) = Some (if s then Gt else Lt))
+  /\ SFcompare (S754_infinity true) (S754_infinity false) = Some Lt
+  /\ SFcompare (S754_infinity false) (S754_infinity true) = Some Gt
+  /\ (forall s, SFcompare (S754_infinity s) (S754_infinity s) = Some Eq).
+Proof. exact compare_inf. Qed.
+(** the witnesses of the two repaired defects *)
+Theorem c18_nan_unordered : forall y : spec_float,
+  le80 S754_nan y = false /\ ge80 S754_nan y = false /\ le80 y S754_nan = false /\ ge80 y S754_nan = false
+  /\ partial_cmp80 S754_nan y = None /\ eq80 S754_nan y = false /\ eq80 y S754_nan = false.
+Proof. exact nan_relations. Qed.
+Theorem c18_zeros_equal : forall s1 s2 : bool, eq80 (S754_zero s1) (S754_zero s2) = true.
+Proof. exact zeros_equal. Qed.
+
+(** ** min, max, abs *)
+Theorem c18_min_max_abs : forall x y : spec_float, x <> S754_nan -> y <> S754_nan ->
+  ((min80 x y = x \/ min80 x y = y) /\ SFleb (min80 x y) x = true /\ SFleb (min80 x y) y = true)
+  /\ ((max80 x y = x \/ max80 x y = y) /\ SFleb x (max80 x y) = true /\ SFleb y (max80 x y) = true)
+  /\ val (abs80 x) = Rabs (val x)
+  /\ abs80 x = match x with S754_zero _ => x | _ => SFabs x end.
+Proof.
+  exact (fun x y Hx Hy => conj (min80_spec x y Hx Hy) (conj (max80_spec x y Hx Hy)
+           (conj (abs80_val x) (abs80_spec x)))).
+Qed.
+(** which operand the instruction sequences return on ties and on NaN *)
+Theorem c18_min_max_ties : forall x y : spec_float,
+  (SFcompare x y = Some Eq -> min80 x y = y /\ max80 x y = x)
+  /\ (x = S754_nan \/ y = S754_nan -> min80 x y = y /\ max80 x y = x).
+Proof. exact (fun x y => conj (min80_tie x y) (min80_nan x y)). Qed.
+
+(** ** what the specification checker of the correspondence batches accepts
+    [rne_ok prec emax num den E r] is the integer test "r is the nearest representable value, ties to even, of
+    num/den * 2^E" used by [spec_check]; it is sound w.r.t. Flocq's rounding in every format: *)
+Theorem c18_rne_ok_sound : forall prec emax : Z, 1 < prec -> prec < emax ->
+  forall (num den E : Z) (r : spec_float), 0 < num -> 0 < den -> rne_ok prec emax num den E r = true ->
+  let rv := round radix2 (FLT_exp (3 - emax - prec) prec) ZnearestE (IZR num / IZR den * bpow radix2 E) in
+  match r with
+  | S754_finite _ m e => rv = F2R (Float radix2 (Zpos m) e) /\ bounded prec emax m e = true
+  | S754_zero _ => rv = 0%R
+  | S754_infinity _ => (bpow radix2 emax <= rv)%R
+  | S754_nan => False
+  end.
+Proof. exact rne_ok_sound. Qed.
+
+(** if [spec_check] accepts a case then, on the OBSERVED operands [x = f80::from(a)], [y = f80::from(b)] (which are
+    data of the extended format), every observed arithmetic result is the IEEE result — the exact real result
+    rounded to nearest even by [c18_add_correct_f80] … [c18_div_correct_f80], with the special-value tables — and
+    every observed binary64 result is the correct rounding ([c18_narrow_correct]) of the observed extended one.
+    With a batch lemma [forallb spec_check cases = true] this holds for every sampled case, independently of
+    [model_check]. *)
+Theorem c18_spec_check_sound : forall (op : opk) (a b : Z) (o : obs), spec_check (Case op a b o) = true ->
+  let x := decode80 (o_wa o) in
+  let y := decode80 (o_wb o) in
+  (sel op OAdd = true -> valid80 x /\ valid80 y /\ decode80 (o_add o) = add80 x y
+                         /\ decode64 (o_nadd o) = narrow (decode80 (o_add o)))
+  /\ (sel op OSub = true -> valid80 x /\ valid80 y /\ decode80 (o_sub o) = sub80 x y
+                         /\ decode64 (o_nsub o) = narrow (decode80 (o_sub o)))
+  /\ (sel op OMul = true -> valid80 x /\ valid80 y /\ decode80 (o_mul o) = mul80 x y
+                         /\ decode64 (o_nmul o) = narrow (decode80 (o_mul o)))
+  /\ (sel op ODiv = true -> valid80 x /\ valid80 y /\ decode80 (o_div o) = div80 x y
+                         /\ decode64 (o_ndiv o) = narrow (decode80 (o_div o)))
+  /\ (sel op OChain = true -> valid80 x /\ valid80 y /\ valid80 (decode80 (o_mul o))
+                         /\ decode80 (o_mad o) = add80 (decode80 (o_mul o)) x
+                         /\ decode80 (o_chain o) = div80 (decode80 (o_mad o)) y
+                         /\ decode64 (o_nchain o) = narrow (decode80 (o_chain o))).
+Proof. exact spec_check_arith. Qed.
